@@ -3151,7 +3151,9 @@ impl Translator {
                     self.collect_locals_pat(&pat.0, locals, mono);
                     self.collect_locals_expr(expr, locals, mono);
                 }
-                StmtKind::Assign(_, _, expr) => {
+                StmtKind::Assign(lhs, _, expr) => {
+                    // the target may contain expressions that bind names (`a[match k { .. }] = e`)
+                    self.collect_locals_expr(lhs, locals, mono);
                     self.collect_locals_expr(expr, locals, mono);
                 }
                 StmtKind::Continue | StmtKind::Break => {}
